@@ -30,7 +30,7 @@ def plan(tier, seed):
     # the same relations with every peltool invocation in a FRESH process (nothing carried over between the modes), on
     # directories whose PELs share component ids across creator classes
     m = 16 if tier == "quick" else 150
-    specs += [{"mode": "fresh", "n": m, "rseed": seed * 1000 + 500 + i, "registry": i == 0} for i in range(2)]
+    specs += [{"mode": "fresh", "n": m, "rseed": seed * 1000 + 500 + i, "registry": i != 1} for i in range(3)]
     return specs
 
 
@@ -103,7 +103,8 @@ FRESH = [False]
 def run_fresh(spec, ctx, rng, u, reg, root):
     FRESH[0] = True
     for i in range(spec["n"]):
-        comp = rng.choice([0x4142, 0x4842, 0x2000, 0x5A5A])
+        # ids that the name files of several creators know (BMC: 2000, 1000, FA00; hostboot: 0100, FA00; PHYP: 4142) or nobody
+        comp = rng.choice([0x4142, 0x4842, 0x2000, 0x5A5A, 0x2000, 0xFA00, 0x0100, 0x1000])
         ents = dirs.gen_dir_model(rng, u, rng.randrange(2, 7), reg=reg, with_ps=0.8)
         ents.sort(key=lambda e: e.name)
         for k, e in enumerate(ents):
@@ -111,7 +112,8 @@ def run_fresh(spec, ctx, rng, u, reg, root):
             if k == 0 and e.pel.creator != "H":
                 # the first file: the id only occurs AFTER its primary SRC (in a section contributed by PHYP), where the list
                 # mode does not look but the display-all mode does
-                e.pel.sections.append(pm.sec_ud(rng, u, e.pel.creator, comp, 1, 1, pm.gen_payload(rng, u, 8), ext_creator="H"))
+                other = "H" if rng.random() < 0.5 else rng.choice([c for c in "HOB" if c != e.pel.creator])
+                e.pel.sections.append(pm.sec_ud(rng, u, e.pel.creator, comp, 1, 1, pm.gen_payload(rng, u, 8), ext_creator=other))
                 e.data = e.pel.encode()
                 continue
             if rng.random() < 0.7:
